@@ -141,12 +141,13 @@ class P(Prop):
                 if where == "dt":
                     inp["dt"] = [Fraction(60)] * m
                 elif where.startswith("pin_consumer"):
-                    idx = [i for i, d in enumerate(comps) if pg.kind_of(d["cls"]) == "Consumer"]
+                    idx = [i for i, d in enumerate(comps) if pg.kind_of(d["cls"]) == "Consumer"] or [0]
                     i = rng.choice(idx)
                     mm = 1 if where.endswith("one") else m
                     inp["comps"][i]["pin"] = [Fraction(10)] * mm
                 else:
-                    idx = [i for i, d in enumerate(comps) if pg.kind_of(d["cls"]) == "Source"]
+                    idx = [i for i, d in enumerate(comps) if pg.kind_of(d["cls"]) == "Source"] or \
+                          [i for i, d in enumerate(comps) if pg.kind_of(d["cls"]) in ("Storage", "PtiPto")]     # a plant fed by storage only
                     i = rng.choice(idx)
                     inp["comps"][i][where] = [True] * m if where == "status" else [Fraction(0)] * m
                 case["what"] = where
